@@ -11,6 +11,24 @@ CHECKS = {
         note="trusts vflib/refsets.py (self-checked on random derivations every run), the model renderer (a rendered model that draws a syntax error makes the run inconclusive) and vprobe's serialisation of SemanticData",
         design="§3 C09",
     ),
+    "C10": dict(
+        technique="runtime monitoring: reference conflict classifier (R-conf on independent R-sets) compared with the E011-E014 diagnostics of the real SemanticPass, exhaustive small + random grammars",
+        text="Each grammar of the C09 population is classified per decision point as must-report / must-not-report / don't-care from independently computed sets and the property's definition of a conflict; the (code, primary span) set lelwel reports must contain every must-report site and nothing outside must-report and don't-care.",
+        note="trusts R-sets and the stated don't-care cases (guarded later branch, Pratt self reference in middle/nested positions, EOF<Part> convention)",
+        design="§3 C10",
+    ),
+    "C13": dict(
+        technique="runtime monitoring: round-trip oracle (model -> random legal layout -> real lexer+parser -> typed ast view == model)",
+        text="Random grammar structures rendered in random legal layouts are read by the real front end; the typed view must equal the written structure and no syntax diagnostic may appear.",
+        note="trusts the renderer's notion of a legal gap; a negative control (wrong precedence in the renderer) is detected within 300 cases",
+        design="§3 C13",
+    ),
+    "C14": dict(
+        technique="runtime monitoring: brute-force dominator oracle on an independently built grammar graph vs. recovery_sets of the real SemanticPass",
+        text="For every loop/option of every accepted grammar observed, the recovery set lelwel computed equals the README formula evaluated with brute-force dominators (delete a node, test reachability), and the end-of-input token of each entry point that reaches it is in follow or recovery.",
+        note="uses lelwel's own follow sets inside the formula (C09 owns them); graph construction follows README/RecoverySetGenerator conventions for unused parts",
+        design="§3 C14",
+    ),
 }
 
 NOT_YET = "check not built yet in this round; design in DESIGN.md §3, build order §7"
